@@ -14,7 +14,7 @@
   breaks exactly those obligations and a change to the lexer's keyword table
   exactly the ones here.
 -/
-import RotoV.Lemmas.RegistrationAccepts
+import RotoV.Lemmas.RegistrationOrigin
 import RotoV.Generated.Keywords
 
 namespace RotoV.C18
@@ -99,8 +99,9 @@ theorem add_fails_iff (lex : Name → Lex) (st : St) (hw : WF st) (items : Items
    their declared path), `reachable_impl_items` (methods and constants of impl
    blocks at the declared path of the *type*), `reachable_use_paths` /
    `reachable_through_use` (the paths `use` items name), `tables_hold_exactly` and
-   `reachable_nowhere_else` (nothing else is declared, and a script path
-   resolves only along a declaration's own path or a root import).  Refuted for
+   `reachable_nowhere_else` / `reachable_only_items` (nothing else is declared,
+   every declaration is one item, and a script path resolves only along a
+   declaration's own path or a root import).  Refuted for
    a `use` *inside* a module (`use_in_module_lands_in_parent`, known finding;
    `use_in_module_not_repairable_by_registration`). -/
 
@@ -280,6 +281,28 @@ theorem reachable_nowhere_else (lex : Name → Lex) (st st' : St) (hw : WF st) (
     rcases (himp [] n tgt).mp h3 with a | ⟨_, a⟩
     · exact Or.inl a
     · exact Or.inr a
+
+/-- **T3, "at no other path", in terms of the items (`reachable_only_items`).**
+    After a successful registration, whatever a script path `p` resolves to was
+    declared before or is the declaration of *one item of the library*
+    (`Origin`: a module, type, function or constant at its module path ++ name;
+    a method or constant of an impl block at the path of the block's *type* ++
+    name), and `p` is that path — or `last :: rest` for a root import
+    `last ↦ u.dropLast ++ [last]` made by a path `u` of a `use` item of the
+    library (or held before), followed by the rest of that path. -/
+theorem reachable_only_items (lex : Name → Lex) (st st' : St) (hw : WF st) (items : Items)
+    (h : register Cfg.fixed lex st items = .ok st') (p : List Name) (d : Decl)
+    (hr : resolvePath st' p = some d) :
+    ∃ k, (st.decls k = some d ∨ Origin lex st items k d) ∧
+      (k.path = p ∨ ∃ n rest tgt, p = n :: rest ∧
+        (st.imports [] n = some tgt ∨ ∃ u ∈ ops5 items, u.getLast? = some n ∧ tgt = ⟨u.dropLast, n⟩) ∧
+        k.path = tgt.path ++ rest) := by
+  obtain ⟨_, hc, _⟩ := (register_ok_iff lex hw items st').mp h
+  obtain ⟨k, hk, hp⟩ := reachable_nowhere_else lex st st' hw items h p d hr
+  refine ⟨k, hk.imp id (declared_origin lex hw items hc), ?_⟩
+  rcases hp with hp | ⟨n, rest, tgt, h1, h2, h3⟩
+  · exact Or.inl hp
+  · exact Or.inr ⟨n, rest, tgt, h1, h2.imp id (imported_origin lex hw items hc), h3⟩
 
 /-- Why the open finding `use_in_module_lands_in_parent` has no repair inside
     registration: a script path consults imports only for its *first* segment
@@ -493,6 +516,13 @@ example :
 example : (Declared lexV st0 libImpl).map (·.1) =
     [⟨[], 0⟩, ⟨[0], 1⟩, ⟨[0, 1], 2⟩, ⟨[], 4⟩, ⟨[0, 1], 3⟩] ∧
     Imported lexV st0 libImpl = [(1, ⟨[0], 1⟩)] := by decide
+
+/-- non-vacuity of `reachable_only_items`: an undeclared path resolves to nothing, the
+    declared ones and the one through the `use` do -/
+example :
+    (match register Cfg.fixed lexV st0 libImpl with
+     | .ok st => (resolvePath st [0, 2], resolvePath st [4, 1], (resolvePath st [0, 1]).isSome, (resolvePath st [1]).isSome)
+     | _ => (none, none, false, false)) = (none, none, true, true) := by decide
 
 /-- non-vacuity of `use_in_module_not_repairable_by_registration`: moving the
     import of `witnessC` into the module's own scope changes no resolution -/
